@@ -3,7 +3,7 @@
    the two repaired findings). *)
 From Coq Require Import List NArith ZArith Bool Lia ZifyBool ZifyN ZifyNat.
 From SW Require Import model.Needle proof.NeedleProofs model.VolumeCrash proof.VolumeCrashProofs
-  proof.VolumeCrashLoad proof.VolumeCrashSpec.
+  proof.VolumeCrashLoad proof.VolumeCrashSpec proof.VolumeCrashSim.
 Import ListNotations.
 Local Open Scope N_scope.
 Ltac Zify.zify_post_hook ::= Z.div_mod_to_equations.
@@ -174,6 +174,88 @@ Section WithCrc.
     exists h1, h2, L. split; [assumption|]. split; [rewrite Hs1; assumption|]. split; [assumption|].
     split; [assumption|]. intros k. rewrite Hr. apply Hs2.
   Qed.
+
+  (* ---------- ... and from then on ---------- *)
+  (* what comes up at a crash point that write order allows *)
+  Lemma reopen_core : forall h dcut icut, Forall (wf_op crc) h ->
+    admissible (p_run h) dcut icut = true ->
+    exists h1 h2 D,
+      h = h1 ++ h2 /\ len (p_idx (p_run h1)) = icut / NeedleMapEntrySize /\
+      load crc (crash (p_run h) dcut icut)
+        = Loaded {| l_dat := D; l_idx := p_idx (p_run h1); l_map := p_map (p_run h1); l_nwod := false |} /\
+      good_dat (p_run h1) D.
+  Proof.
+    intros h dcut icut Hwf Hadm.
+    unfold admissible in Hadm.
+    remember (icut / NeedleMapEntrySize) as ie eqn:Eie.
+    apply andb_true_iff in Hadm. destruct Hadm as [Hadm Hend]. apply andb_true_iff in Hadm. destruct Hadm as [Hicut Hdcut].
+    assert (Hie : ie <= len (p_idx (p_run h))) by (unfold NeedleMapEntrySize in *; lia).
+    destruct (split_at_index h ie Hwf Hie) as [h1 [h2 [Hh Hlen]]].
+    pose proof Hwf as Hwf'. rewrite Hh in Hwf'. apply Forall_app in Hwf'. destruct Hwf' as [Hwf1 Hwf2].
+    pose proof (inv_run crc h1 Hwf1) as HI1.
+    set (st1 := p_run h1) in *. set (st := p_run h) in *.
+    assert (Hst : st = fold_left p_step h2 st1) by (unfold st, st1; rewrite Hh; apply p_run_app).
+    destruct (fold_extends crc h2 st1 HI1 Hwf2) as [X [Y [Z [EX [EY EZ]]]]]. rewrite <- Hst in EX, EY, EZ.
+    assert (Hrl : len (p_recs st1) = ie) by (rewrite <- Hlen, (inv_idx crc st1 HI1), len_idx_of; reflexivity).
+    pose proof (rec_end_prefix st1 st Z HI1 EZ) as Hre. rewrite Hrl in Hre.
+    assert (Hge : len (p_dat st1) <= dcut) by lia.
+    set (T := takeN (dcut - len (p_dat st1)) X).
+    set (torn := if ie <? len (p_idx st) then icut mod NeedleMapEntrySize else 0).
+    assert (Hcrash : crash st dcut icut = {| f_dat := p_dat st1 ++ T; f_idx := p_idx st1; f_torn := torn |}).
+    { unfold crash. rewrite <- Eie. f_equal.
+      - rewrite EX. apply takeN_app_ge. assumption.
+      - rewrite EY. apply takeN_app. assumption. }
+    destruct (load_core crc st1 T torn HI1) as [D [Hload HD]].
+    exists h1, h2, D.
+    split; [assumption|]. split; [exact Hlen|]. split; [rewrite Hcrash; assumption|assumption].
+  Qed.
+
+  (* The reopened volume is from then on indistinguishable from the volume that ran [h1] -- the
+     operations whose index entries survived -- and never stopped: after ANY further operations
+     [h'] (fresh keys, overwrites, rewrites of deleted keys, deletes, refused and repeated writes)
+     every key reads exactly as in the running volume after [h1 ++ h'], and every further
+     operation is answered as the running volume answers it. *)
+  Definition crash_safe_forever_at (h : list op) (dcut icut : N) : Prop :=
+    exists h1 h2 L,
+      h = h1 ++ h2 /\ len (p_idx (p_run h1)) = icut / NeedleMapEntrySize /\
+      load crc (crash (p_run h) dcut icut) = Loaded L /\ l_nwod L = false /\
+      forall h', Forall (wf_op crc) h' ->
+        (forall k, l_read crc (l_after crc L h') k = p_read (p_run (h1 ++ h')) k) /\
+        (forall o, wf_op crc o -> snd (l_step crc (l_after crc L h') o) = p_res (p_run (h1 ++ h')) o).
+
+  Theorem crash_safe_forever : forall h dcut icut, Forall (wf_op crc) h ->
+    admissible (p_run h) dcut icut = true -> crash_safe_forever_at h dcut icut.
+  Proof.
+    intros h dcut icut Hwf Hadm.
+    destruct (reopen_core h dcut icut Hwf Hadm) as [h1 [h2 [D [Hh [Hlen [Hload HD]]]]]].
+    assert (Hwf1 : Forall (wf_op crc) h1) by (rewrite Hh in Hwf; apply Forall_app in Hwf; tauto).
+    pose proof (inv_run crc h1 Hwf1) as HI1.
+    eexists h1, h2, _. split; [assumption|]. split; [assumption|]. split; [exact Hload|]. split; [reflexivity|].
+    intros h' Hwf'. rewrite p_run_app.
+    pose proof (sim_reopen crc (p_run h1) D (p_idx (p_run h1)) HI1 HD) as HS0.
+    pose proof (sim_after crc _ h' _ _ HS0 Hwf') as HS.
+    split.
+    - intros k. apply (sim_read crc _ _ _ k HS eq_refl).
+    - intros o Ho. apply (sim_step crc _ _ _ o HS Ho). reflexivity.
+  Qed.
+
+  (* ... in terms of the operations: the specification after h1 ++ h' *)
+  Theorem crash_safe_forever_per_spec : forall h dcut icut, Forall (wf_op crc) h ->
+    admissible (p_run h) dcut icut = true ->
+    exists h1 h2 L, h = h1 ++ h2 /\ snd (s_run h1) = icut / NeedleMapEntrySize /\
+      load crc (crash (p_run h) dcut icut) = Loaded L /\ l_nwod L = false /\
+      forall h', Forall (wf_op crc) h' ->
+        forall k, l_read crc (l_after crc L h') k = s_read (fst (s_run (h1 ++ h'))) k.
+  Proof.
+    intros h dcut icut Hwf Ha.
+    destruct (crash_safe_forever h dcut icut Hwf Ha) as [h1 [h2 [L [Hh [Hlen [Hl [Hn Hc]]]]]]].
+    assert (Hwf1 : Forall (wf_op crc) h1) by (rewrite Hh in Hwf; apply Forall_app in Hwf; tauto).
+    destruct (running_reads_spec crc h1 Hwf1) as [Hs1 _].
+    exists h1, h2, L. split; [assumption|]. split; [rewrite Hs1; assumption|]. split; [assumption|].
+    split; [assumption|]. intros h' Hwf' k. destruct (Hc h' Hwf') as [Hr _]. rewrite (Hr k).
+    assert (Hall : Forall (wf_op crc) (h1 ++ h')) by (apply Forall_app; split; assumption).
+    destruct (running_reads_spec crc (h1 ++ h') Hall) as [_ Hs2]. apply Hs2.
+  Qed.
 End WithCrc.
 
 (* ---------- the witnesses ---------- *)
@@ -325,10 +407,11 @@ Proof.
   intros [h1 [h2 [L [Hh [Hlen [Hload [_ [Hr _]]]]]]]].
   (* three index entries survive: h1 is the whole history *)
   assert (E1 : h1 = w_empty_history).
-  { destruct h2 as [|o2 h2]; [rewrite app_nil_r in Hh; congruence|]. exfalso.
-    change (48 / NeedleMapEntrySize) with 3 in Hlen.
-    destruct h1 as [|a [|b [|c [|d h1]]]]; cbn in Hh; inversion Hh; subst; try (vm_compute in Hlen; discriminate).
-    destruct h1; discriminate. }
+  { unfold w_empty_history in Hh.
+    destruct h1 as [|a h1]; [vm_compute in Hlen; discriminate|]. cbn [app] in Hh. injection Hh as Ha Hh. subst a.
+    destruct h1 as [|b h1]; [vm_compute in Hlen; discriminate|]. cbn [app] in Hh. injection Hh as Hb Hh. subst b.
+    destruct h1 as [|c h1]; [vm_compute in Hlen; discriminate|]. cbn [app] in Hh. injection Hh as Hc Hh. subst c.
+    destruct h1 as [|d h1]; [reflexivity|discriminate Hh]. }
   subst h1. specialize (Hr 2).
   assert (EL : load toy_crc (crash (p_run w_empty_history) 120 48) = Loaded L) by exact Hload.
   vm_compute in EL. inversion EL; subst L. vm_compute in Hr. discriminate.
